@@ -49,7 +49,11 @@ def _job(job) -> List[Dict[str, Any]]:
         inst("R9.1", "UNDECIDED", "phi_major", "vanished anchor: the CDF primitive phi_major was not found")
         return out
     try:
-        oc = run_op(prog, roles, "predict_win", n=n, box=Box(ranges=True, players=(1, 8)), setup=opaque_setup(prog))
+        def setup(w, base=opaque_setup(prog)):
+            base(w)
+            w.I.track_sym_ranges = True  # signs of the mu-independent factors, for the monotonicity typing (R9.7)
+
+        oc = run_op(prog, roles, "predict_win", n=n, box=Box(ranges=True, players=(1, 8)), setup=setup)
     except Exception as e:
         inst("R9.1", "UNDECIDED", case, f"abstract evaluation failed: {type(e).__name__}: {e}")
         return out
@@ -88,6 +92,7 @@ def _job(job) -> List[Dict[str, Any]]:
             ok = p_add(a, b) == p_const(1)
             inst("R9.3", "HOLDS" if ok else "VIOLATED", "two-team form returns [p, 1 - p]",
                  "" if ok else f"the two returned values are not p and 1 - p for the same p: {show(a, 160)}  and  {show(b, 160)}")
+            _mono_two(I, p0, p1, inst)
             sw = to_poly(swap_pair_roles(p0.sym))
             ok2 = sw is not None and p_add(a, sw) == p_const(1)
             inst("R9.1", "HOLDS" if ok2 else "VIOLATED", "P(a beats b) + P(b beats a) == 1 (two teams)",
@@ -128,6 +133,7 @@ def _job(job) -> List[Dict[str, Any]]:
                 return ("pb", ivar("$p"))
             return None
 
+        _mono_many(I, el.sym, K, inst, case)
         t_ab = map_sym_indices(c, to_pair)
         pa_, pb_ = to_poly(t_ab), to_poly(swap_pair_roles(t_ab))
         ok1 = pa_ is not None and pb_ is not None and p_add(pa_, pb_) == p_const(1)
@@ -135,6 +141,41 @@ def _job(job) -> List[Dict[str, Any]]:
              "" if ok1 else f"exchanging the two teams of a pair does not turn the pair term into its complement: term = {show(pa_, 220)}; swapped = {show(pb_, 220)} "
                             "(asymmetric scale or non-antisymmetric margin) — the probabilities cannot sum to 1 and identical teams do not get one half")
     return out
+
+
+def _mu_of(head_test):
+    return lambda a: a[0] == "in" and a[1] == "IN.player" and a[2] == "mu" and head_test(a[3][0])
+
+
+_WORDS = {"+": "never falls", "-": "never rises", "0": "does not move", "?": "may move either way (no monotone structure found)"}
+
+
+def _mono_two(I, p0, p1, inst):
+    """R9.7 (two teams): raising a member's mu never lowers the own team's probability and never raises the other's."""
+    from .mono import mono, sign_table
+
+    sg = sign_table(I)
+    for k, p in ((0, p0), (1, p1)):
+        own = mono(p.sym, _mu_of(lambda h, k=k: h == ("c", k)), sg)
+        oth = mono(p.sym, _mu_of(lambda h, k=k: h == ("c", 1 - k)), sg)
+        ok = own in ("+", "0") and oth in ("-", "0") and (own, oth) != ("0", "0")
+        inst("R9.7", "HOLDS" if ok else ("UNDECIDED" if "?" in (own, oth) and not ({own} & {"-"} or {oth} & {"+"}) else "VIOLATED"),
+             f"monotone in mu: result[{k}] (two teams)",
+             "" if ok else f"when the mu of a member of team {k} is raised result[{k}] {_WORDS[own]}; when a member of the other team is raised it {_WORDS[oth]} "
+                           "(expected: never falls / never rises)", {"own": own, "other": oth})
+
+
+def _mono_many(I, sym, K, inst, case):
+    """R9.7 (3..8 teams): the value at position k never falls in the mu of team k's members and never rises in any other team's."""
+    from .mono import mono, sign_table
+
+    sg = sign_table(I)
+    own = mono(sym, _mu_of(lambda h: h == K), sg)
+    oth = mono(sym, _mu_of(lambda h: h[0] == "oth"), sg)
+    ok = own == "+" and oth == "-"
+    inst("R9.7", "HOLDS" if ok else ("UNDECIDED" if "?" in (own, oth) and own != "-" and oth != "+" else "VIOLATED"), f"monotone in mu: result[k] ({case})",
+         "" if ok else f"when the mu of a member of team k is raised result[k] {_WORDS[own]}; when a member of another team is raised it {_WORDS[oth]} (expected: never falls / never rises)",
+         {"own": own, "other": oth})
 
 
 def _heads(sym, out: set, depth=0, bound=frozenset()):
@@ -181,7 +222,8 @@ def run(prog: Program, rep: Report, tier: str = "quick") -> None:
     )
     rep.rule_text = "per model x {2 teams, 3..8 teams}: antisymmetry, complement, alignment, one instance per partial-operation site"
     rep.trust("abstract interpreter osv/ai; osv/poly.py normal form with the complement identity for the CDF role; itertools.permutations order and k-chunk idiom (stdlib facts)")
-    rep.not_decided = ["the normaliser count n(n-1)/2", "range [0,1] for n > 2", "monotonicity in mu", "exact equality under permutation (float re-association)"]
+    rep.not_decided = ["the normaliser count n(n-1)/2", "range [0,1] for n > 2", "exact equality under permutation (float re-association)",
+                       "monotonicity up to rounding: R9.7 types the real-valued terms, not their float evaluation"]
     jobs = [(i, n) for i in range(len(roles)) for n in ((2, 2), (3, 8))]
     seen = set()
     for lst in parallel_map(_job, jobs):
